@@ -24,7 +24,7 @@ out += ["", "### 10.2 Open known findings (genuine defects recorded, not repaire
         "class-level builder singletons, `assume_valid=True`), because passing baseline tests pin the behaviour",
         "(`extra_headers`), or because the defect is minor. Each has a pinned reproducer run by the property's check on every",
         "run (`KNOWN-FINDING:` line) and generator feature switches (`triggers`) that are off while it is open; the number of",
-        "steered draws is in every evidence file. Regions are kept as narrow as the defect: two seeded changes were first",
+        "steered draws is in every evidence file. Regions are kept as narrow as the defect: several seeded changes were first",
         "missed only because a region was wider than its defect (10.5).", "",
         "| id | property | triggers | what fails |", "|----|----------|----------|------------|"]
 for k in kf:
